@@ -23,3 +23,32 @@ package middleware
 //@   ensures* trusted: opts.useRequestID && inV != "" ==> ridOf(result) == ite(opts.requestIDLimit > 0 && len(inV) > opts.requestIDLimit, substr(inV, 0, opts.requestIDLimit), inV)
 //@   ensures* untrusted: !opts.useRequestID && ctxVal(ctx, ridKey()) == nil ==> len(ridOf(result)) == 8
 //@   ensures* metadata: mdHas(result) && len(md1[lowerS("x-request-id")]) == 1 && md1[lowerS("x-request-id")][0] == ridOf(result)
+
+// ---- tracing ----------------------------------------------------------------------
+
+//@ macro sval(c, k) = unboxStr(ctxVal(c, iface(string, k)).val)
+//@ macro shas(c, k) = typeIs(ctxVal(c, iface(string, k)), string)
+//@ macro mdFirst(md, k) = ite(len(md[lowerS(k)]) > 0, md[lowerS(k)][0], "")
+
+//@ func withTrace
+//@   property C19
+//@   requires ctx != nil && opts != nil
+//@   requires middleware.TraceIDKey != middleware.TraceSpanIDKey && middleware.TraceIDKey != middleware.TraceParentSpanIDKey && middleware.TraceSpanIDKey != middleware.TraceParentSpanIDKey
+//@   let md0 = ptr(metadata.MD, mdOf(ctx))
+//@   let inT = ite(mdHas(ctx), old(mdFirst(md0, "trace-id")), "")
+//@   let inP = ite(mdHas(ctx), old(mdFirst(md0, "parent-span-id")), "")
+//@   ensures* keep: inT != "" ==> shas(result, middleware.TraceIDKey) && sval(result, middleware.TraceIDKey) == inT
+//@   ensures* parent: inT != "" && inP != "" ==> shas(result, middleware.TraceParentSpanIDKey) && sval(result, middleware.TraceParentSpanIDKey) == inP
+//@   ensures* span: inT != "" ==> shas(result, middleware.TraceSpanIDKey) && sval(result, middleware.TraceSpanIDKey) == lastSpanID
+//@   ensures* unsampled: inT == "" && (sampleCalls == old(sampleCalls) || !lastSample) ==> result == ctx
+
+//@ func setTrace
+//@   property C19
+//@   requires ctx != nil
+//@   let tv = ctxVal(ctx, iface(string, middleware.TraceIDKey))
+//@   let sv = ctxVal(ctx, iface(string, middleware.TraceSpanIDKey))
+//@   requires tv == nil || typeIs(tv, string)
+//@   requires tv != nil ==> typeIs(sv, string)
+//@   let md1 = ptr(metadata.MD, mdOutOf(result))
+//@   ensures* forwarded: tv != nil ==> mdFirst(md1, "trace-id") == unboxStr(tv.val) && mdFirst(md1, "parent-span-id") == unboxStr(sv.val)
+//@   ensures* untouched: tv == nil ==> result == ctx
